@@ -7,7 +7,7 @@ ids="$@"; [ -z "$ids" ] && ids=$(ls seeded | grep -v RESULTS)
 echo "# Seeded changes against the quick checks (repo HEAD $(git -C /repo rev-parse --short HEAD), $(date -u +%F))" > $OUT.tmp
 echo >> $OUT.tmp; echo "| seed | property | result | first violation reported |" >> $OUT.tmp; echo "|---|---|---|---|" >> $OUT.tmp
 for id in $ids; do
-  prop=$(python3 -c "import json;print(json.load(open('seeded/$id/meta.json'))['property'])")
+  prop=$(python3 -c "import json;m=json.load(open('seeded/$id/meta.json'));print(m.get('check_property',m['property']))")
   log=$(mktemp)
   tools/tryseed.sh $prop seeded/$id/patch.diff --tier quick > $log 2>&1
   if grep -q "patch does not apply" $log; then res="PATCH DOES NOT APPLY to HEAD"; v="";
